@@ -1,9 +1,214 @@
-"""Verus route: mechanical extraction of real functions + ghost overlay (filled in below)."""
+"""Verus route: the verbatim text of the anchored function is extracted from /repo's current working tree on every run,
+a ghost overlay (contracts/verus/<unit>.overlay.json) is spliced in at anchors given by exact statement text, and the
+result is verified by `verus` (single file; vstd cannot be resolved by cargo-verus offline).
+
+Extraction rules (closed set; each application is logged in the evidence):
+  X1 copy the function text byte for byte from its signature line to the matching closing brace (sha256 recorded)
+  X2 drop the attributes listed in the overlay (#[must_use], #[inline]) and doc comments directly above the item
+  X4 `for x in <expr> {` -> `for x in it: <expr> invariant .. {`            (names the ghost iterator, adds an invariant)
+  X5 insert requires/ensures after the signature and `proof { .. }` / `let ghost` lines before/after a statement that is
+     identified by its exact (whitespace-trimmed) text and occurrence number
+  X5s a unit-typed tail expression after which ghost code is inserted gets a terminating `;`
+  X6 type declarations used by the function are re-stated in the prelude with `pub` fields; the run checks textually that
+     the source still declares the same fields
+Anything else (an anchor that is not found exactly as often as expected, a changed type declaration) is *undecided*.
+A Verus error on an unchanged anchor set is a *violated* obligation; Verus gives no counterexample, so the VIOLATION line
+ends with no-failing-input-found and the replay file carries Verus's output."""
+import hashlib
+import json
+import os
+import re
+import shutil
+import tempfile
+import time
+
+from .common import CONTRACTS, REPO, run, scratch_parent
+
+VERUS_DIR = os.path.join(CONTRACTS, "verus")
+
+
+class VObligation:
+    backend = "verus"
+    kind = "unbounded"
+    bound = ""
+    weight = 1
+    timeout = 600
+    min_checks = 1
+    fs = 0
+
+    def __init__(self, path):
+        with open(path) as f:
+            self.ov = json.load(f)
+        self.name = self.ov["unit"]
+        self.fn = self.ov["fn"]
+        self.desc = self.ov["statement"]
+        self.domain = "all inputs satisfying the requires clause (no bound on vector length)"
+        self.props = dict(self.ov.get("props", {}))
+        self.src_file = os.path.basename(self.ov["source"])
+        self.contract_file = path
+
+    def wanted(self, prop, tier):
+        t = self.props.get(prop)
+        return t is not None and (t == "quick" or tier == "thorough")
+
+    def feature_sets(self, tier):
+        return ["default"]
 
 
 def all_obligations():
-    return []
+    obs = []
+    if os.path.isdir(VERUS_DIR):
+        for fn in sorted(os.listdir(VERUS_DIR)):
+            if fn.endswith(".overlay.json"):
+                obs.append(VObligation(os.path.join(VERUS_DIR, fn)))
+    return obs
+
+
+class AnchorLost(Exception):
+    pass
+
+
+def extract_fn(lines, anchor):
+    """Return (start, end) line indexes of the function whose signature line (trimmed) equals `anchor`."""
+    idx = [i for i, l in enumerate(lines) if l.strip() == anchor]
+    if len(idx) != 1:
+        raise AnchorLost("signature anchor %r found %d times" % (anchor, len(idx)))
+    start = idx[0]
+    depth = 0
+    for j in range(start, len(lines)):
+        # braces inside string/char literals do not occur in the anchored functions; comments are skipped
+        code = re.sub(r"//.*", "", lines[j])
+        depth += code.count("{") - code.count("}")
+        if depth == 0 and j > start or (depth == 0 and "{" in code and "}" in code):
+            return start, j
+    raise AnchorLost("unbalanced braces after %r" % anchor)
+
+
+def nth_line(body, text, occurrence):
+    hits = [i for i, l in enumerate(body) if l.strip() == text]
+    if len(hits) < occurrence:
+        raise AnchorLost("statement anchor %r: occurrence %d not found (%d present)" % (text, occurrence, len(hits)))
+    return hits[occurrence - 1]
+
+
+def build_unit(ob, src_text):
+    ov = ob.ov
+    lines = src_text.split("\n")
+    log = []
+    # X6: type shape check
+    for needle in ("pub struct Interval {", "pub(crate) first: CodePoint,", "pub(crate) last: CodePoint,",
+                   "pub struct CodePointSet {", "ivs: Vec<Interval>,", "pub type CodePoint = u32;",
+                   "pub const CODE_POINT_MAX: CodePoint = 0x10FFFF;"):
+        if not any(l.strip() == needle for l in lines):
+            raise AnchorLost("type declaration changed: %r not found" % needle)
+    log.append("X6 type declarations Interval/CodePointSet/CodePoint/CODE_POINT_MAX match the prelude")
+    pieces = []
+    for item in ov["items"]:
+        s, e = extract_fn(lines, item["anchor"])
+        body = lines[s:e + 1]
+        sha = hashlib.sha256("\n".join(body).encode()).hexdigest()
+        log.append("X1 %s: lines %d-%d of %s, sha256 %s" % (item["anchor"], s + 1, e + 1, ov["source"], sha[:16]))
+        if item.get("drop_attrs"):
+            log.append("X2 dropped attributes above the item: %s" % ", ".join(item["drop_attrs"]))
+        pieces.append(body)
+    body = pieces[0]
+    # signature
+    sig = ov["signature"]
+    if body[0].strip() != sig["replace"]:
+        raise AnchorLost("signature line differs")
+    body[0] = "    " + sig["with"]
+    log.append("X5 requires/ensures attached to the signature")
+    # insertions: compute positions on the original body first, apply from the bottom up
+    ops = []
+    for ins in ov["insertions"]:
+        if "replace_line" in ins:
+            k = nth_line(body, ins["replace_line"], ins.get("occurrence", 1))
+            ops.append((k, "replace", ins))
+        elif "after_line" in ins:
+            k = nth_line(body, ins["after_line"], ins.get("occurrence", 1))
+            ops.append((k, "after", ins))
+        else:
+            k = nth_line(body, ins["before_line"], ins.get("occurrence", 1))
+            ops.append((k, "before", ins))
+    for k, how, ins in sorted(ops, key=lambda t: -t[0]):
+        new = ins["with"].split("\n")
+        if how == "replace":
+            indent = body[k][:len(body[k]) - len(body[k].lstrip())]
+            body[k:k + 1] = [indent + new[0]] + new[1:]
+        elif how == "after":
+            if not body[k].rstrip().endswith((";", "{", "}")):
+                # X5s: a unit-typed tail expression becomes a statement (`;` appended) so that ghost code may follow it
+                body[k] = body[k].rstrip() + ";"
+                log.append("X5s terminated the tail expression %r with `;`" % ins["after_line"])
+            body[k + 1:k + 1] = new
+        else:
+            body[k:k] = new
+        log.append("%s %s %r" % (ins["rule"], how, ins.get("replace_line") or ins.get("after_line") or ins.get("before_line")))
+    with open(os.path.join(VERUS_DIR, "prelude.rs")) as f:
+        prelude = f.read()
+    text = prelude.replace("//@@EXTRACTED@@", "\n".join(body))
+    return text, log
 
 
 def run_group(pid, obs, args, records, log, mk_record):
-    pass
+    for ob in obs:
+        t0 = time.time()
+        src = os.path.join(REPO, ob.ov["source"])
+        d = tempfile.mkdtemp(prefix="regress-verif-verus-", dir=scratch_parent())
+        try:
+            try:
+                with open(src) as f:
+                    text, xlog = build_unit(ob, f.read())
+            except (AnchorLost, OSError) as e:
+                r = {"status": "undecided", "reason": "extraction: %s" % e, "n_checks": 0, "failed": [],
+                     "covers_total": 0, "covers_satisfied": 0, "solver_s": None, "wall_s": 0, "cmd": ""}
+                records.append(mk_record(ob, "default", r))
+                log("  %-44s %-10s - %s" % (ob.name, "undecided", r["reason"][:160]))
+                continue
+            path = os.path.join(d, "%s.rs" % ob.name)
+            with open(path, "w") as f:
+                f.write(text)
+            cmd = ["verus", path, "--time"]
+            rc, out, secs, to = run(cmd, cwd=d, timeout=ob.timeout)
+            m = re.search(r"verification results:: (\d+) verified, (\d+) errors", out)
+            r = {"n_checks": 0, "failed": [], "covers_total": 0, "covers_satisfied": 0, "solver_s": None,
+                 "wall_s": round(secs, 1), "cmd": "verus <extracted %s + overlay> --time" % ob.ov["source"],
+                 "reason": "", "extraction_log": xlog}
+            ms = re.search(r"total-time:\s+(\d+) ms", out) or re.search(r"smt-run:\s+(\d+) ms", out)
+            if ms:
+                r["solver_s"] = int(ms.group(1)) / 1000.0
+            if to:
+                r["status"], r["reason"] = "undecided", "verus timeout"
+            elif m and int(m.group(2)) == 0 and int(m.group(1)) > 0 and rc == 0:
+                r["status"] = "discharged"
+                r["n_checks"] = int(m.group(1))
+            elif m and int(m.group(2)) > 0:
+                errs = re.findall(r"^error: (.*)$", out, re.M)
+                if any("rlimit" in e.lower() or "resource limit" in e.lower() for e in errs):
+                    r["status"], r["reason"] = "undecided", "verus rlimit: " + "; ".join(errs[:2])
+                else:
+                    r["status"] = "violated"
+                    r["n_checks"] = int(m.group(1)) + int(m.group(2))
+                    r["failed"] = [{"id": ob.name, "description": e, "location": ob.fn} for e in errs[:6]]
+                    r["reason"] = "; ".join(errs[:3])
+            else:
+                r["status"] = "undecided"
+                errs = re.findall(r"^error.*$", out, re.M)
+                r["reason"] = "verus did not produce a verdict (unsupported construct or syntax): " + " | ".join(errs[:3])
+            k = out.find("error")
+            r["_out"] = (out[k:k + 5000] if k >= 0 else "") + "\n...\n" + out[-1500:]
+            rec = mk_record(ob, "default", r)
+            rec["extraction_log"] = xlog
+            # mechanical scan of the verified text for assumptions
+            trusted = re.findall(r"#\[verifier::external_body\]\s*\n\s*pub fn (\w+)", text)
+            rec["stubs"] = ["external_body (assumed contract): %s" % t for t in trusted]
+            rec["assumes"] = len(re.findall(r"\bassume\(|\badmit\(", text))
+            if r["status"] == "violated":
+                rec["_res"] = r
+                rec["_playback"] = {}
+                rec["_native"] = {"attempted": False, "note": "Verus gives no counterexample"}
+            records.append(rec)
+            log("  %-44s %-10s %5.0fs %5d fns %s" % (ob.name, r["status"], secs, r["n_checks"],
+                                                     ("- " + r["reason"][:160]) if r["reason"] else ""))
+        finally:
+            shutil.rmtree(d, ignore_errors=True)
